@@ -844,6 +844,35 @@ fn run_indexo(v: &Value) -> Value {
     }
 }
 
+/// A simple glyph in a foreign packing (short vectors, "same" coordinates, repeated flags): the bytes
+/// TLC prescribed are parsed, the parsed glyph is written, the written bytes are parsed again.
+fn run_glyphp(case: &Value) -> Value {
+    let src = gb(case, "src");
+    let fail = |res: String| json!({"res": res, "back1": [], "rem1": -1, "bytes": [], "back": [], "rem": -1, "again": "n/a"});
+    let out = guarded(|| -> Result<Value, String> {
+        let mut c = ReadScope::new(&src).ctxt();
+        let g = c.read::<Glyph<'_>>().map_err(|e| format!("src {:?}", e))?;
+        let back1 = proj_glyph(&g, false);
+        let rem1 = left(&c);
+        match write_vec(|b| Glyph::write(b, g)) {
+            Err(e) => Ok(json!({"res": "Err", "err": werr(&e), "back1": back1, "rem1": rem1, "bytes": [], "back": [], "rem": -1, "again": "n/a"})),
+            Ok(bytes) => {
+                let mut c2 = ReadScope::new(&bytes).ctxt();
+                let t = c2.read::<Glyph<'_>>().map_err(|e| format!("reread {:?}", e))?;
+                let back = proj_glyph(&t, false);
+                let rem = left(&c2);
+                let again = again_of(&bytes, write_vec(|b| Glyph::write(b, t)));
+                Ok(json!({"res": "Ok", "back1": back1, "rem1": rem1, "bytes": jb(&bytes), "back": back, "rem": rem, "again": again}))
+            }
+        }
+    });
+    match out {
+        Outcome::Returned(Ok(v)) => v,
+        Outcome::Returned(Err(e)) => fail(format!("ReadErr:{}", e)),
+        Outcome::Panicked(m) => fail(format!("Panic:{}", panic_key(&m))),
+    }
+}
+
 fn run_cff_kind(k: &str, case: &Value) -> Value {
     let v = &case["v"];
     match k {
@@ -989,6 +1018,7 @@ pub fn codec_replay(cases: &str, trace: &str) {
         let k = case["k"].as_str().unwrap_or("").to_string();
         let o = match k.as_str() {
             "cffint" | "dict" | "index" | "indexo" | "charset" | "encoding" | "fdselect" | "ivs" => run_cff_kind(&k, case),
+            "glyphp" => run_glyphp(case),
             _ => run_table(&k, &case["v"]),
         };
         bump(&mut per_kind, k.clone());
@@ -999,7 +1029,7 @@ pub fn codec_replay(cases: &str, trace: &str) {
         let v = &case["v"];
         let var = if let Some(f) = v.get("fmt").and_then(|x| x.as_i64()) {
             format!(".fmt{}", f)
-        } else if k == "glyph" {
+        } else if k == "glyph" || k == "glyphp" {
             format!(".{}", v["t"].as_str().unwrap_or(""))
         } else if k == "dict" {
             format!(".{}", v["kind"].as_str().unwrap_or(""))
